@@ -21,7 +21,7 @@ from vlib.shrink import shrink_seq
 
 ID = "C11"
 LEVEL = "exploration"
-BUDGET = {"quick": 60, "thorough": 600}
+BUDGET = {"quick": 200, "thorough": 1200}
 RULE = (
     "case = (container spec nested <= 3 with duplicate keys and list values, each "
     "container optionally put through 1-5 C10 operations before the copy, copy "
@@ -40,7 +40,38 @@ KINDS = ["copy()", "copy.copy", "deepcopy"] + [f"pickle{p}" for p in range(6)]
 DEEP = set(KINDS[2:])
 
 
+# labels whose values are what the loaders themselves make (times with zone offsets,
+# placeholders for missing values, quantities, sets, nested blocks ...)
+LOADED_TEXTS = [
+    "start = 01:12:22+07\nstop = 1990-07-04T12:00:00-03:30\nEND\n",
+    "t = 12:00Z\nu = 2001-001T01:10:39.5Z\nv = 10:54:12-3\nEND\n",
+    "a =\nb = 2\nGROUP = g\n  c =\n  d = (1, 2) <m>\nEND_GROUP\nEND\n",
+    "OBJECT = o\n  GROUP = g\n    k = {A, B}\n    t = 23:59:60+01:30\n  END_GROUP\n"
+    "  q = 5.5 <km/s>\nEND_OBJECT\nx = 16#FF#\nx = 'sym'\nx = \"two words\"\nEND\n",
+    "a = 1.50\nb = -2#101#\nc = NULL\nd = TRUE\ne = 2001-01-01\nf = ((1, 2), (3))\nEND\n",
+    "Object = IsisCube\n  Group = Core\n    StartByte = 65537 <bytes>\n"
+    "    Time = 2008-01-01T12:00:00.123+00:00\n  End_Group\nEnd_Object\nEnd\n",
+]
+LOADERS = ["default", "default-decimal", "ODL", "PVL", "ISISv"]
+
+
+def load_text(spec):
+    import pvl
+    from decimal import Decimal
+    from vlib.dialects import make_parser
+    text = LOADED_TEXTS[spec["text"] % len(LOADED_TEXTS)] if isinstance(
+        spec["text"], int) else spec["text"]
+    how = spec["loader"]
+    if how == "default":
+        return pvl.loads(text)
+    if how == "default-decimal":
+        return pvl.loads(text, real_cls=Decimal)
+    return make_parser(how).parse(text)
+
+
 def build(spec):
+    if "text" in spec:
+        return load_text(spec)
     cls = c10.classes()[spec["c"]]
     m = cls([(k, build_value(v)) for k, v in spec["items"]])
     # a history of C10 operations before the copy is taken: the container is then in
@@ -145,6 +176,8 @@ def walk(x, path):
 def container_paths(spec, prefix=()):
     """Paths (index lists) of nested containers and lists inside spec."""
     out = []
+    if "text" in spec:
+        return out
     for i, (k, v) in enumerate(spec["items"]):
         if isinstance(v, dict) and "c" in v:
             out.append((prefix + (i,), "c"))
@@ -240,6 +273,8 @@ def kind_family(kind):
 
 
 def nontrivial(case):
+    if "text" in case["spec"]:
+        return True
     items = case["spec"]["items"]
     ks = [k for k, _ in items]
     nested = any(isinstance(v, dict) and "c" in v for _, v in items)
@@ -319,9 +354,38 @@ def random_cases(acc, n, seed):
     body()
 
 
+def loaded_labels(acc):
+    """Containers as the loaders return them (not built by hand): every fixed label x
+    every loader that accepts it x every way of copying x mutation of either side."""
+    for i in range(len(LOADED_TEXTS)):
+        for how in LOADERS:
+            spec = {"text": i, "loader": how}
+            try:
+                m = build(spec)
+            except Exception:
+                acc.event("loaded:refused-by-loader")
+                continue
+            top = [[j] for j, (k, v) in enumerate(list(m)) if hasattr(v, "getall")]
+            for kind in KINDS:
+                for side in ("copy", "orig"):
+                    for path in [[]] + top[:1]:
+                        case = {"spec": spec, "kind": kind, "side": side, "path": path,
+                                "history": [["append", "a", 1], ["delitem", "a"],
+                                            ["insert3", 0, "b", 2], ["popitem"]]}
+                        try:
+                            r = run_case(case)
+                        except Exception as e:
+                            raise RuntimeError(f"harness: loaded_labels {case}: {e!r}")
+                        acc.case(key=repr(case), nontrivial=True)
+                        acc.event("loaded:" + kind_family(kind))
+                        if r is not None:
+                            acc.fail(r[0], case, r[1])
+
+
 def shards(tier, seed):
     n = 250 if tier == "quick" else 6000
-    return [("random_cases", dict(n=n, seed=seed * 1000 + j)) for j in range(16)]
+    return [("random_cases", dict(n=n, seed=seed * 1000 + j)) for j in range(16)] + \
+        [("loaded_labels", {})]
 
 
 def _tolist(x):
